@@ -53,7 +53,8 @@ CHECKS = {
              "an acquisition that was started, not aborted and not hit by a fault, storage holds exactly the delivered frames and there are "
              "max_frame_count of them (C04_complete_after_stop); an event of one stream never changes the other stream's queue, storage or camera "
              "log (C04_streams_independent, C04_streams_data_independent); monitor activity changes nothing but the monitor reader "
-             "(C04_monitor_independent). Tied to the code on every run: the whole runtime is compiled unmodified from /repo's working tree against "
+             "(C04_monitor_independent); the ghost flags and logs these statements use (stored, delivered, seen, aborted, ...) are folds over the "
+             "observable events (C04_ghost_flags_are_events, C04_logs_are_events). Tied to the code on every run: the whole runtime is compiled unmodified from /repo's working tree against "
              "the deterministic scheduler and a mock driver, every channel operation, device call, callback, thread event and API call is logged "
              "with the acting thread, translated to model events, and the extracted model must ACCEPT every logged trace (implementation traces "
              "are then among the traces the theorems quantify over); an independent oracle over the log (storage appends vs camera frames, pixel "
